@@ -1,5 +1,6 @@
 #!/bin/bash
 # usage: try_patch.sh <patch.diff> [Cxx ...]   -- apply the patch to a scratch worktree of /repo HEAD, run the quick checks there, clean up.
+VERIF=$(dirname $(dirname $(readlink -f $0)))
 [ -f "$1" ] || { echo "no such patch: $1"; exit 3; }
 P=$(readlink -f $1); shift
 [ -f "$(dirname $P)/patch.rebased.diff" ] && P="$(dirname $P)/patch.rebased.diff"
@@ -10,8 +11,8 @@ if ! git apply $P 2>/dev/null; then
   echo "PATCH-DOES-NOT-APPLY"; git -C /repo worktree remove --force $WT; exit 3
 fi
 PROPS="$@"
-if [ -z "$PROPS" ]; then PROPS=$(python3 -c "import json;print(' '.join(c['property_id'] for c in json.load(open('/verif/MANIFEST.json'))['checks']))"); fi
-cd /verif
+if [ -z "$PROPS" ]; then PROPS=$(python3 -c "import json,sys;print(' '.join(c['property_id'] for c in json.load(open(sys.argv[1]))['checks']))" $VERIF/MANIFEST.json); fi
+cd $VERIF
 for p in $PROPS; do
   OUT=$(HBV_REPO=$WT HBV_NO_EVIDENCE=1 ./hbv check $p --tier ${TIER:-quick} 2>&1)
   rc=$?
